@@ -50,7 +50,8 @@
 #ifndef PROP
 #define PROP 0          // 0: all monitors; n: only the monitor and assertion ids of property Cn
 #endif
-#define PSEL(p) (PROP == 0 || PROP == (p))
+// PROP 18 (no UB): no functional monitor, but payloads are read the way user code reads them (monitor of C07)
+#define PSEL(p) (PROP == 0 || PROP == (p) || (PROP == 18 && (p) == 7))
 #define VA(c, id) do { if (PSEL((id) / 100)) vassert((c), (id)); } while (0)
 #ifdef FFSM2_ENABLE_TRANSITION_HISTORY
 #define HISTORY 1
